@@ -42,6 +42,7 @@ class _FakeRe:
 
 FL.re = _FakeRe
 POOL = ['a', 'b', 'c', '', '.']
+PPOOL = ['a', 'b', 'c', 'a ', ' b']      # plumb(): patterns whose edges are blanks are patterns of their own (test ids contain blanks)
 PERMS3 = [(0, 1, 2), (0, 2, 1), (1, 0, 2), (1, 2, 0), (2, 0, 1), (2, 1, 0)]
 
 
@@ -146,15 +147,15 @@ def plumb(i0, g0, i1, g1, two, m00, m01, m10, m11, which, ol=False):
     module names computed by the real code), --layer via Filter.global_setup."""
     global LAST
     two = cb(two)
-    pats = [('!' if g0 else '') + pick(POOL[:3], i0)]
+    pats = [('!' if g0 else '') + pick(PPOOL, i0)]
     if two:
-        pats.append(('!' if g1 else '') + pick(POOL[:3], i1))
-    which = pick([0, 1, 2, 3, 4], which)
+        pats.append(('!' if g1 else '') + pick(PPOOL, i1))
+    which = pick([0, 1, 2, 3, 4, 5], which)
     ol = cb(ol)
     del USED[:]
-    names = [['t0', 't1'], ['pk.tests', 'pk.sub.tests'], ['w.A', 'w.B'], ['kp.pk.tests', 'kp.pk.sub.tests'], ['t0', 't1']][which]
+    names = [['t0', 't1'], ['pk.tests', 'pk.sub.tests'], ['w.A', 'w.B'], ['kp.pk.tests', 'kp.pk.sub.tests'], ['t0', 't1'], ['w.A', 'w.AB']][which]
     M.clear()
-    for p in POOL[:3]:
+    for p in PPOOL:
         M[(p, names[0])] = False
         M[(p, names[1])] = False
     # the two patterns' outcomes on the two names are symbolic
@@ -164,6 +165,12 @@ def plumb(i0, g0, i1, g1, two, m00, m01, m10, m11, which, ol=False):
         M[(pats[1].lstrip('!'), names[0])] = m10
         M[(pats[1].lstrip('!'), names[1])] = m11
     exp = [n for n in names if _oracle(pats, n)]
+    if which == 5:
+        # a layer subprocess (--resume-layer w.A) runs the layer it was started for and no other, whatever the inherited
+        # --layer patterns say about the others; as a regex, 'w.A' also matches 'w.AB'
+        M[('w.A', 'w.AB')] = True
+        M[('w.A', 'w.A')] = True
+        exp = ['w.A']
     if which in (0, 4):
         argv = []
         if which == 4 and two:
@@ -208,18 +215,21 @@ def plumb(i0, g0, i1, g1, two, m00, m01, m10, m11, which, ol=False):
         for p in pats:
             argv += ['--layer', p]
         o = _options(argv)
-        o.resume_layer = None
+        o.resume_layer = 'w.A' if which == 5 else None
 
         class R:
             pass
         r = R()
         r.options = o
         r.errors = []
-        r.tests_by_layer_name = {'w.A': 1, 'w.B': 2}
+        r.tests_by_layer_name = {names[0]: 1, names[1]: 2}
         o.output = _Out()
         FL.Filter(r).global_setup()
         got = sorted(r.tests_by_layer_name)
     stray = sorted({u[1] for u in USED if u[1] not in names})
+    # patterns reach the matcher exactly as given (or as the module/positional plumbing documents: 'pk' in which == 4)
+    known = {p.lstrip('!') if p.startswith('!') else p for p in pats} | {'', '.', 'pk'}
+    stray += sorted({'pattern %r' % u[0] for u in USED if u[0] not in known and which != 5})
     LAST = (which, tuple(pats), got, tuple(stray))
     return got == sorted(exp) and not stray
 
@@ -271,12 +281,13 @@ SPEC = {
          'params': [('i0', 'int'), ('g0', 'bool'), ('i1', 'int'), ('g1', 'bool'), ('two', 'bool'),
                     ('m00', 'bool'), ('m01', 'bool'), ('m10', 'bool'), ('m11', 'bool'), ('which', 'int'), ('ol', 'bool')],
          'call': 'i0, g0, i1, g1, two, m00, m01, m10, m11, which, ol',
-         'bounds': {'quick': '0 <= i0 < 3 and 0 <= i1 < 3 and 0 <= which < 5 and i0 == 0 and (not ol or which == 0 or which == 4)',
-                    'thorough': '0 <= i0 < 3 and 0 <= i1 < 3 and 0 <= which < 5 and (not ol or which == 0 or which == 4)'},
-         'slices': {'quick': ['which == %d' % w for w in range(5)],
-                    'thorough': ['which == %d and i0 == %d' % (w, i) for w in range(5) for i in range(3)]},
+         'bounds': {'quick': '0 <= i0 < 5 and 0 <= i1 < 5 and 0 <= which < 6 and (i0 == 0 or i0 == 3) and i1 != 3 and (not ol or which == 0 or which == 4)',
+                    'thorough': '0 <= i0 < 5 and 0 <= i1 < 5 and 0 <= which < 6 and (not ol or which == 0 or which == 4)'},
+         'slices': {'quick': ['which == %d' % w for w in range(6)],
+                    'thorough': ['which == %d and i0 == %d' % (w, i) for w in range(6) for i in range(5)]},
          'reach': 'plumb_reach',
          'fidelity': [dict(i0=0, g0=False, i1=1, g1=True, two=True, m00=True, m01=True, m10=False, m11=True, which=w, ol=(w == 4))
-                      for w in range(5)]},
+                      for w in range(5)] + [dict(i0=3, g0=False, i1=4, g1=True, two=True, m00=True, m01=False, m10=False, m11=True, which=5, ol=False),
+                                            dict(i0=3, g0=True, i1=0, g1=False, two=True, m00=False, m01=True, m10=True, m11=True, which=0, ol=False)]},
     ],
 }
